@@ -72,7 +72,7 @@ def contract_fold(u, Ts, offs):
     return f
 
 
-def mixed_amount(ctx, name, unit, max_days):
+def mixed_amount(ctx, name, unit, max_days, neg=None):
     """A signed amount in `unit` ('h','m','s','us') given as mixed-radix digits
     (days, hours, minutes, seconds, microseconds), so that the implementation's divmod-by-60/24/10^6
     carry chains split syntactically instead of producing div/mod atoms.  The sign is a
@@ -87,7 +87,9 @@ def mixed_amount(ctx, name, unit, max_days):
         v = v * 60 + ctx.int(name + "_S", 0, 59)
     if unit == "us":
         v = v * 1000000 + ctx.int(name + "_U", 0, 999999)
-    if ctx.bool(name + "_neg"):
+    if neg is None:
+        neg = ctx.bool(name + "_neg")
+    if neg:
         return -v
     return v
 
